@@ -1,16 +1,20 @@
 """C14 -- A snippet alias expands exactly like its definition, and resolution ends."""
+import copy
 import json
 import os
+import re
 import signal
 import sys
 
 import attr_util as au
 import snippet_util as su
-from common import enc_str, VERIF
+from common import enc_str, VERIF, Reader
 from markup_util import enc_config, decode_expand, impl_expand, NotModelled, canon_cfg
 
 PLAIN = ['div', 'p', 'span', 'x-y', 'custom', 'em']      # not snippet keys
 USER_KEYS = ['s1', 's2', 's3', 's4', 's5', 's6']
+ODD_KEYS = ['a:b', 'k-1', '!x', 'u_v', 'T9', '-z']          # the other characters of a key text (`:` `-` `!` `_`, digit/dash first)
+KEY_TEXT_RE = re.compile(r'[A-Za-z0-9_:!-]+\Z')             # = proofs/SnippetAliasParse.key_text
 
 
 TIME_LIMIT = 10.0        # seconds per expansion; generated tables expand in milliseconds
@@ -100,7 +104,7 @@ def rand_definition(rng, names):
 
 def rand_table(rng):
     n = rng.randint(1, 6)
-    keys = USER_KEYS[:n]
+    keys = (USER_KEYS if rng.random() < 0.7 else ODD_KEYS)[:n]
     cyclic_ok = rng.random() < 0.6
     table = {}
     for i, k in enumerate(keys):
@@ -137,6 +141,132 @@ def reaches_cycle(table, start):
         state[k] = 2
         return False
     return visit(start)
+
+
+# ---------------------------------------------------------------- the hypothesis of C14_alias_eq_definition
+def impl_mentions(defn, cfg):
+    """Definitions the text `defn` refers to: every node (any depth) of the definition, read by the
+    implementation's own parser the way resolve() reads it, whose name is a key with a non-empty value."""
+    from emmet.config import Config
+    from emmet.abbreviation import parse as abbreviation
+    config = Config(copy.deepcopy(cfg))
+    if config.get('text'):
+        config.user_config['text'] = None
+    try:
+        tree = abbreviation(defn, config)
+    except Exception:  # noqa: a definition that does not parse mentions nothing (expansion fails anyway)
+        return []
+    out = []
+
+    def walk(n):
+        s = config.snippets.get(n.name) if n.name else None
+        if s:
+            out.append(s)
+        for c in n.children:
+            walk(c)
+    for c in tree.children:
+        walk(c)
+    return out
+
+
+def parser_cycle(cfg, d, memo):
+    """Does following impl_mentions from the definition text d meet a text that is on the current path?
+    (depth-first on the implementation's parser; memo: text -> True (reaches a cycle) / False)."""
+    path = []
+
+    def visit(x):
+        if x in path:
+            return True
+        if x in memo:
+            return memo[x]
+        path.append(x)
+        r = any(visit(y) for y in impl_mentions(x, cfg))
+        path.pop()
+        memo[x] = r
+        return r
+    return visit(d)
+
+
+def impl_key_is_one_node(k):
+    """The abbreviation `k` alone is one bare element named k (C14_key_is_one_node)."""
+    from emmet.abbreviation import parse as abbreviation
+    try:
+        t = abbreviation(k, {})
+    except Exception:  # noqa
+        return False
+    if len(t.children) != 1:
+        return False
+    n = t.children[0]
+    return (n.name == k and n.value is None and not n.attributes and n.repeat is None and not n.children
+            and not n.self_closing)
+
+
+def acyclicity_tie(ctx, tables):
+    """tables: [(cfg, table)].  The decidable predicates of the theorem (extracted: acyclic_from, acyclic_table,
+    mentions, def_of, key_text) against the harness' own textual walk (reaches_cycle / referenced) and against
+    the implementation's parser (impl_mentions, impl_key_is_one_node)."""
+    snip = ctx.model('snip')
+    if snip is None:
+        return
+    wires, meta = [], []
+    for cfg, table in tables:
+        try:
+            ec = enc_config(cfg)
+        except NotModelled:
+            ctx.cover('C14:tie-not-modelled')
+            continue
+        wires.append([2] + ec)
+        meta.append(('table', cfg, table, None))
+        for k, d in table.items():
+            wires.append([1] + ec + enc_str(d))
+            meta.append(('from', cfg, table, k))
+            wires.append([3] + ec + enc_str(d))
+            meta.append(('mentions', cfg, table, k))
+            wires.append([4] + ec + enc_str(k))
+            meta.append(('def', cfg, table, k))
+            wires.append([5] + enc_str(k))
+            meta.append(('key', cfg, table, k))
+    dis = 0
+    n = 0
+    for (kind, cfg, table, k), w in zip(meta, snip.run(wires)):
+        r = Reader(w)
+        n += 1
+        user = 'snippets' in cfg          # a generated table (no groups, no built-in names): the textual reader applies
+        if kind == 'table':
+            # the configuration's table = the user's snippets over the built-in ones of the syntax
+            from emmet.config import Config
+            got = r.bool()
+            memo = {}
+            want = not any(parser_cycle(cfg, x, memo) for x in Config(copy.deepcopy(cfg)).snippets.values() if x)
+            ctx.cover('C14:tie-table-%s' % ('acyclic' if got else 'cyclic'))
+        elif kind == 'from':
+            got = r.bool()
+            want = not parser_cycle(cfg, table[k], {})
+            if user and want != (not reaches_cycle(table, k)):
+                want = ('parser walk', want, 'textual walk', not want)
+            ctx.cover('C14:tie-key-%s' % ('acyclic' if got else 'cyclic'))
+        elif kind == 'mentions':
+            got = r.list(r.str)
+            want = impl_mentions(table[k], cfg)
+            textual = sorted(set(table[x] for x in referenced(table[k], set(table))))
+            if user and sorted(set(want)) != textual:
+                got = ('model', got, 'textual', textual)          # the harness' textual reader disagrees with the parser
+        elif kind == 'def':
+            got = r.opt(r.str)
+            want = table[k] or None
+        else:
+            got = r.bool()
+            want = bool(KEY_TEXT_RE.match(k))
+            if got and not impl_key_is_one_node(k):
+                want = ('impl: not one bare node',)
+        if got != want:
+            dis += 1
+            if dis <= 5:
+                ctx.say('DISAGREE C14 acyclicity tie (%s) key=%r table=%r cfg=%s\n  theorem predicate %r\n  harness/impl      %r'
+                        % (kind, k, table, canon_cfg(cfg), got, want))
+                ctx.broken.append({'kind': 'correspondence', 'file': 'snip-C14-' + kind, 'input': k, 'table': table,
+                                   'config': canon_cfg(cfg), 'model': repr(got)[:300], 'impl': repr(want)[:300]})
+    ctx.cov['correspondence']['snip_C14_acyclicity'] = {'cases': n, 'disagreements': dis}
 
 
 # ---------------------------------------------------------------- cases
@@ -197,7 +327,7 @@ def multikey_check(ctx):
                                  {'component': 'C14-multikey', 'table': nm, 'names': diff})
 
 
-def user_cases(ctx, n_tables):
+def user_cases(ctx, n_tables, tables=None):
     rng = ctx.rng
     cases = []
     for _ in range(n_tables):
@@ -210,6 +340,8 @@ def user_cases(ctx, n_tables):
             cfg['syntax'] = rng.choice(['xml', 'jsx'])
         bound = len(set(table.values()))
         any_cycle = False
+        if tables is not None:
+            tables.append((cfg, table))
         for k, d in table.items():
             cyc = reaches_cycle(table, k)
             any_cycle = any_cycle or cyc
@@ -265,7 +397,7 @@ def check_case(c):
 
 
 def run(ctx):
-    ok = ctx.build(['props/C14.vo', 'run/MarkupRun.vo', 'run/AttrRun.vo'])
+    ok = ctx.build(['props/C14.vo', 'run/MarkupRun.vo', 'run/AttrRun.vo', 'run/SnipRun.vo'])
     if ok:
         ctx.obligations('props/C14.v')
     model = ctx.model('markup') if ok else None
@@ -280,7 +412,8 @@ def run(ctx):
     cases = corpus_cases()
     n_corpus = len(cases)
     cases += builtin_cases()
-    cases += user_cases(ctx, 400 if ctx.tier == 'quick' else 6000)
+    tables = []
+    cases += user_cases(ctx, 400 if ctx.tier == 'quick' else 6000, tables)
     cases += variable_round_cases()
     wires, idx, impl = [], [], []
     maxdepth = 0
@@ -325,6 +458,10 @@ def run(ctx):
     ctx.cov['correspondence']['markup_C14'] = {'cases': len(wires), 'disagreements': dis}
     if ok:
         au.compare_trees(ctx, 'C14', [(c['a'], c['config']) for c, r in zip(cases, impl) if r[0] == 'ok'])
+        from emmet.snippets import markup_snippets, xsl_snippets, pug_snippets
+        acyclicity_tie(ctx, tables + [({'syntax': 'html'}, dict(markup_snippets)),
+                                      ({'syntax': 'xsl'}, {**markup_snippets, **xsl_snippets}),
+                                      ({'syntax': 'pug'}, {**markup_snippets, **pug_snippets})])
     ctx.cov['corpus_cases'] = n_corpus
     ctx.cov['max_resolve_depth_seen'] = maxdepth
     for c, r in list(zip(cases, impl))[-40:-36]:
